@@ -109,9 +109,27 @@ def run(rep, tier):
     for p in std_only:
         rep.ob(ra, "std-only/%s" % p, p in documented or _outer(p) in documented, "item only in the std configuration: %s" % p,
                expected="four std-only helpers (and private functions only they call), Drop for JitMemory", found=p)
-    for p in sorted(set(N.fns) - set(S.fns)):
-        rep.ob(ra, "nostd-only/%s" % p, bool(NOSTD_ONLY.search(p)), "item only in the no_std configuration: %s" % p,
-               expected="set_jit_exec_memory x4, the error shim", found=p)
+    # likewise a private function that only the no_std-only items and the compile wrappers (whose no_std half takes the
+    # caller-supplied executable memory) call
+    ncallers = {}
+    for q, fq in N.fns.items():
+        if fq.get("thir"):
+            for c in walk(fq["thir"]["body"]):
+                if c.get("k") == "call":
+                    ncallers.setdefault(callee_path(c), set()).add(_outer(q))
+    nostd_only = sorted(set(N.fns) - set(S.fns))
+    ndoc = {p for p in nostd_only if NOSTD_ONLY.search(p)}
+    wrappers = {q for q, how in MAY_DIFFER.items() if how == "wrapper"}
+    grew = True
+    while grew:
+        grew = False
+        for p in nostd_only:
+            if p not in ndoc and not N.fns[p].get("pub") and ncallers.get(p) and ncallers[p] <= ndoc | wrappers | {p}:
+                ndoc.add(p)
+                grew = True
+    for p in nostd_only:
+        rep.ob(ra, "nostd-only/%s" % p, p in ndoc or _outer(p) in ndoc, "item only in the no_std configuration: %s" % p,
+               expected="set_jit_exec_memory x4, the error shim (and private functions only they or the compile wrappers call)", found=p)
     rb = rep.rule("R20.b", "bodies common to both configurations are identical after normalisation", floor=300)
     differing = []
     same = 0
